@@ -72,7 +72,7 @@ type Sig = Vec<Decl>;
 #[derive(Clone, PartialEq, Eq, Hash, Debug)]
 enum P {
     W,
-    I(i64),
+    I(i128),
     B(Vec<u8>),
     /// type number, constructor index in the declaration, arguments (all fields)
     K(usize, usize, Vec<P>),
@@ -80,7 +80,7 @@ enum P {
 
 #[derive(Clone, Debug, PartialEq)]
 enum V {
-    I(i64),
+    I(i128),
     B(Vec<u8>),
     K(usize, Vec<V>),
 }
@@ -604,7 +604,7 @@ fn model_pat(sig: &Sig, rk: &BTreeMap<String, usize>, ty: Ty, s: &Sx) -> Result<
         Sx::A(a) if a == "_" => Ok(P::W),
         Sx::L(xs) => match (xs.first(), ty) {
             (Some(Sx::A(k)), Ty::Int) if k == "i" && xs.len() == 2 => match &xs[1] {
-                Sx::A(n) => n.parse::<i64>().map(P::I).map_err(|e| e.to_string()),
+                Sx::A(n) => n.parse::<i128>().map(P::I).map_err(|e| e.to_string()),
                 _ => Err("bad int".into()),
             },
             (Some(Sx::A(k)), Ty::Bytes) if k == "b" && xs.len() == 2 => match &xs[1] {
@@ -851,7 +851,7 @@ fn has_literal(p: &P) -> bool {
     }
 }
 
-fn collect_lits(p: &P, ints: &mut BTreeSet<i64>, bytes: &mut BTreeSet<Vec<u8>>) {
+fn collect_lits(p: &P, ints: &mut BTreeSet<i128>, bytes: &mut BTreeSet<Vec<u8>>) {
     match p {
         P::I(n) => {
             ints.insert(*n);
@@ -868,9 +868,9 @@ const CAP: u64 = 20000;
 
 struct Enum<'a> {
     sig: &'a Sig,
-    ints: Vec<i64>,
+    ints: Vec<i128>,
     bytes: Vec<Vec<u8>>,
-    fresh_int: i64,
+    fresh_int: i128,
     fresh_bytes: Vec<u8>,
     /// a minimal-depth value of each declared type (None: uninhabited)
     smallest: Vec<Option<V>>,
@@ -891,7 +891,7 @@ impl<'a> Enum<'a> {
         while bytes.contains(&fresh_bytes) {
             fresh_bytes.push(0xcd);
         }
-        let mut iv: Vec<i64> = ints.into_iter().collect();
+        let mut iv: Vec<i128> = ints.into_iter().collect();
         iv.push(fresh_int);
         let mut bv: Vec<Vec<u8>> = bytes.into_iter().collect();
         bv.push(fresh_bytes.clone());
@@ -1013,7 +1013,7 @@ impl<'a> Enum<'a> {
         let pats: Vec<&P> = pats.iter().cloned().filter(|p| !matches!(p, P::W)).collect();
         match ty {
             Ty::Int => {
-                let mut s: BTreeSet<i64> = pats.iter().filter_map(|p| if let P::I(n) = p { Some(*n) } else { None }).collect();
+                let mut s: BTreeSet<i128> = pats.iter().filter_map(|p| if let P::I(n) = p { Some(*n) } else { None }).collect();
                 s.insert(self.fresh_int);
                 s.into_iter().map(V::I).collect()
             }
@@ -1475,7 +1475,24 @@ fn family_case(b: &FamilyBlock, mut k: u64, seed: u64) -> Case {
 
 // ───────────────────────────── random larger cases ─────────────────────────────
 
-const INT_POOL: [i64; 8] = [0, 1, -1, 2, 42, 1000, -255, 9223372036854775807];
+// (literals beyond 64 bits as well: Aiken's Int is unbounded, and two distinct literals must stay distinct
+// for the checker however large they are)
+const INT_POOL: [i128; 14] = [
+    0,
+    1,
+    -1,
+    2,
+    42,
+    1000,
+    -255,
+    9223372036854775807,
+    9223372036854775808,
+    18446744073709551616,
+    36893488147419103232,
+    -9223372036854775808,
+    -9223372036854775809,
+    -18446744073709551617,
+];
 
 fn bytes_pool() -> Vec<Vec<u8>> {
     // several byte strings that are not valid UTF-8 and look alike under a lossy text conversion
@@ -1664,8 +1681,12 @@ fn split(sig: &Sig, ty: Ty, d: usize, budget: usize, rng: &mut Prng) -> Vec<P> {
     match ty {
         Ty::Int => {
             let k = 1 + rng.below((budget - 1).min(3));
-            let mut pool: Vec<i64> = INT_POOL.to_vec();
-            shuffle(&mut pool[..5], rng);
+            let mut pool: Vec<i128> = INT_POOL.to_vec();
+            if rng.chance(1, 3) {
+                shuffle(&mut pool[..], rng);
+            } else {
+                shuffle(&mut pool[..5], rng);
+            }
             let mut out: Vec<P> = pool[..k].iter().map(|n| P::I(*n)).collect();
             out.push(P::W);
             out
